@@ -50,6 +50,10 @@ type Seen struct {
 	Exec   *sess.MyExecute // COM_STMT_EXECUTE: the decoded command
 	ExecOf string          // ... the text of the executed statement
 	Err    string          // why the scripted database could not understand the command ("" = understood)
+	// Bad is set when the command is malformed on the wire (a COM_STMT_EXECUTE that does not decode
+	// for the prepared statement's parameter count): a verdict about whoever sent it, answered with
+	// the error a MySQL server gives
+	Bad string
 	// Matched is the number of rows the WHERE clause selected (select / update / delete)
 	Matched int
 }
@@ -172,6 +176,10 @@ func (rc *rowCtx) eval(e *Expr) (val, error) {
 		if err != nil || v.null {
 			return v, err
 		}
+		// the sign belongs to the digits (-9223372036854775808 has no positive counterpart)
+		if s := strings.TrimSpace(string(v.b)); v.num && !strings.HasPrefix(s, "-") {
+			return val{b: []byte("-" + s), num: true}, nil
+		}
 		return val{b: []byte(strconv.FormatInt(-v.int(), 10)), num: true}, nil
 	case "func":
 		switch e.Name {
@@ -203,6 +211,13 @@ func (rc *rowCtx) eval(e *Expr) (val, error) {
 				end = len(s.b)
 			}
 			return val{b: s.b[a-1 : end]}, nil
+		case "convert":
+			if e.Qual != "binary" && e.Qual != "char" {
+				return val{}, fmt.Errorf("convert(.., %s) is outside the scripted database's domain", e.Qual)
+			}
+			v, err := rc.eval(e.Args[0])
+			v.num = false
+			return v, err
 		case "values":
 			// VALUES(col) inside ON DUPLICATE KEY UPDATE is resolved by the caller
 		}
@@ -825,7 +840,8 @@ func (db *DB) Respond(received []sess.MyPacket) []sess.MyPacket {
 			seen.ExecOf, seen.Stmt = ps.sql, ps.st
 			ex, err := sess.DecodeMyExecute(p, ps.st.NParams, ps.types)
 			if err != nil {
-				fail(fmt.Errorf("COM_STMT_EXECUTE does not decode: %v", err))
+				seen.Bad = fmt.Sprintf("COM_STMT_EXECUTE for %q does not decode: %v", ps.sql, err)
+				fail(&dbError{1210, "HY000", "Incorrect arguments to mysqld_stmt_execute"})
 				break
 			}
 			seen.Exec = ex
